@@ -55,6 +55,22 @@ for m in sorted(glob.glob("/tmp/mut/*C??/MUTANT/[0-9]")):
             break
     rows.append((tag, prop, (meta.get("summary") or "")[:150].replace("|", "/"), ", ".join(detected) if detected else "**none**", first[:110].replace("|", "/")))
 
+# entries already kept under seeded/ whose scratch worktree is gone: rows from their meta.json
+have = {r[0] for r in rows}
+for mjp in sorted(glob.glob(os.path.join(OUT, "*", "meta.json"))):
+    mj = json.load(open(mjp))
+    if mj.get("id") in have:
+        continue
+    first = ""
+    for c in mj.get("detected_by", []):
+        ls = [l for l in mj.get("checks_run", {}).get(c, {}).get("first_lines", []) if "oracle=" in l]
+        if ls:
+            first = ls[0].strip().split(" count=")[0]
+            break
+    det = mj.get("detected_by", [])
+    rows.append((mj["id"], mj.get("breaks_property"), (mj.get("summary") or "")[:150].replace("|", "/"), ", ".join(det) if det else "**none**", first[:110].replace("|", "/")))
+rows.sort(key=lambda r: (r[0][:3], {"": 0, "b": 1, "c": 2, "d": 3, "e": 4, "f": 5}.get(r[0][4:5] if r[0][4:5].isalpha() else "", 0), r[0]))
+
 with open(os.path.join(OUT, "README.md"), "w") as f:
     f.write("# Seeded changes and the checks that catch them\n\nEach directory holds `patch.diff` (apply with `git -C /repo apply`, undo with `git -C /repo checkout -- .`), the author's demonstration under `demo/` and `meta.json` (what it breaks, what it needs to manifest, what was run here). All changes compile and pass the repository's unedited suite. Detection = the quick tier of the committed checks exits 1 with a VIOLATION line on the changed tree.\n\n")
     f.write("| id | change | caught by | first oracle that fired |\n|---|---|---|---|\n")
